@@ -1188,6 +1188,8 @@ class Evaluator(object):
         base = self.ev(node.value, env)
         idx = self.ev_index(node.slice, env)
         t = tm.sub(base, idx)
+        if t.op == "sub" and t.a[0] is base:
+            idx = t.a[1]  # the index in its canonical spelling (x[slice(a, b)] is x[a:b])
         self.site("subscript", node, base=base, index=idx, term=t)
         return t
 
@@ -1775,6 +1777,8 @@ class Evaluator(object):
         keep = tuple(it for it in rets[-1][1][fr.base_len:] if it[0] == "if" and it[3] == "raise")
         self.pc = saved_pc + keep
         self.summary.inlined.append(q)
+        for ms in self.summary.sites[n_sites:]:
+            ms.d["inlined_from"] = q  # (the outermost helper wins: this assignment runs last for it)
         if result.op == "ite":
             if not hasattr(self, "_inline_results"):
                 self._inline_results = set()
